@@ -186,6 +186,7 @@ Definition resp_parseHeaders (cfg : hcfg) (noHTTP11 : bool) (code : Z) (buf : by
   | IEmpty => Ok (RPHOk (resp_finish noHTTP11 code rs_init) 2)
   | INeedMore => Ok RPHNeedMore
   | IStartSpace => Ok (RPHErr EStartSpace)
+  | IBadBlockEnd => Ok (RPHErr EBadBlockEnd)      (* unreachable: blockEnd = 0 *)
   | IReady b =>
       do lr <- resp_headers_loop (S (length b)) cfg noHTTP11 b 0 rs_init;
       match lr with
